@@ -46,13 +46,11 @@ impl WordId {
 //@end
 //@extract sudachi/src/dic/word_id.rs :: impl WordId :: fn is_system
 //@  ret r
-//@  spec
-        ensures r == (wid_dic(*self) == 0)
+//@  specfile specs/wid/is_system.contract
 //@end
 //@extract sudachi/src/dic/word_id.rs :: impl WordId :: fn is_user
 //@  ret r
-//@  spec
-        ensures r == (wid_dic(*self) != 0 && wid_dic(*self) != 0xf)
+//@  specfile specs/wid/is_user.contract
 //@end
 //@extract sudachi/src/dic/word_id.rs :: impl WordId :: fn is_oov
 //@  ret r
@@ -60,8 +58,7 @@ impl WordId {
 //@end
 //@extract sudachi/src/dic/word_id.rs :: impl WordId :: fn as_raw
 //@  ret r
-//@  spec
-        ensures r == self.raw
+//@  specfile specs/wid/as_raw.contract
 //@end
 }
 } // verus!
